@@ -87,8 +87,27 @@ fn main() {
         }
         "drive" => {
             runner::silence_panics();
-            let sum = props::drive(&ctx);
-            sum.print();
+            // A panic of the code under test inside a driver is data (a violation of that history), not a
+            // tool error: report it, and tell the orchestrator that the recorded trace is incomplete.
+            match std::panic::catch_unwind(std::panic::AssertUnwindSafe(|| props::drive(&ctx))) {
+                Ok(sum) => sum.print(),
+                Err(e) => {
+                    let msg = if let Some(s) = e.downcast_ref::<&str>() {
+                        s.to_string()
+                    } else if let Some(s) = e.downcast_ref::<String>() {
+                        s.clone()
+                    } else {
+                        "panic".to_string()
+                    };
+                    let mut sum = runner::Summary::default();
+                    let mut o = runner::Outcome::ok(true);
+                    o.violate(runner::Violation::new("panic", serde_json::json!("no panic"), serde_json::json!(msg))
+                        .note("the driver was aborted by a panic while running the real code; its trace is incomplete"));
+                    sum.absorb(&serde_json::json!({"driver": mode, "seed": seed}), &o, true);
+                    sum.aborted = true;
+                    sum.print();
+                }
+            }
         }
         _ => {
             eprintln!("unknown command {cmd}");
